@@ -128,7 +128,7 @@ def eventJson (e : Event) : Json :=
     `subgraph(…)` call of the *generated* spec, in source order; the children of a tree are the
     invocations of the constructors its callback calls). Also the `out_variadic` of every constructor
     call, in completion order. -/
-partial def expandCall (j : Json) : Except String (List Tree × List Int) := do
+partial def expandCall (j : Json) : Except String (List TreeE × List Int) := do
   let mod ← j.getObjValAs? String "mod"
   let ctor ← j.getObjValAs? String "ctor"
   let spec ← match findSpec mod ctor with
@@ -143,7 +143,7 @@ partial def expandCall (j : Json) : Except String (List Tree × List Int) := do
     return (p.1, ← p.2.getInt?))
   let env : Env := ⟨lookupD [] lists, lookupD none singles, lookupD 0 ints⟩
   let cbs ← j.getObjVal? "cbs"
-  let mut trees : List Tree := []
+  let mut trees : List TreeE := []
   let mut outs : List Int := []
   let mut outN : Option Nat := none
   for (nm, e) in spec.subgraphs do
@@ -153,13 +153,18 @@ partial def expandCall (j : Json) : Except String (List Tree × List Int) := do
     let cb ← cbs.getObjVal? nm
     let id ← cb.getObjValAs? Nat "id"
     let n ← cb.getObjValAs? Nat "n"
+    -- behaviour of the body (default: returns n Vars), through the signature of its callable form
+    let beh0 : CbBehaviour := match cb.getObjValAs? String "beh" with
+      | .ok _ => match parseBeh cb with | .ok p => p.2 | .error _ => .returnsVars n
+      | .error _ => .returnsVars n
+    let beh := withSig (parseSig cb) types.length beh0
     let inner := (cb.getObjValAs? (Array Json) "inner").toOption.getD #[]
-    let mut children : List Tree := []
+    let mut children : List TreeE := []
     for c in inner.toList do
       let (ts, os) ← expandCall c
       children := children ++ ts
       outs := outs ++ os
-    trees := trees ++ [Tree.node id types n children]
+    trees := trees ++ [TreeE.node id types beh children]
     if nm == spec.outGraph then outN := some n
   match outN with
   | none => throw "out graph not among the subgraphs"
@@ -169,12 +174,13 @@ def handleNested (req call : Json) : Json :=
   match (do
     let (trees, outs) ← expandCall call
     let steps ← ((req.getObjValAs? (Array String) "steps").toOption.getD #[]).toList.mapM parseStep
-    let w1 := runForest trees ⟨[], 0⟩
+    let (res, w1) := runForestE trees ⟨[], 0⟩
     -- the node keeps every callback of the tree (for steps that would re-run stored constructors)
     let node : Node := ⟨w1.events.reverse.map (fun (e : Event) => ("cb", (⟨e.cb, e.args, 0⟩ : Graph))), 0⟩
     let w2 := runSteps Generated.CallGraphData.graph node steps w1
-    let ids : List Nat := (SubgraphNested.idsF trees).eraseDups
+    let ids : List Nat := (SubgraphNested.idsFE trees).eraseDups
     return Json.mkObj [
+      ("result", match res with | none => Json.mkObj [("ok", toJson true)] | some e => Json.mkObj [("err", errName e)]),
       ("events", Json.arr (w1.events.reverse.map eventJson).toArray),
       ("outs", toJson outs),
       ("counts", Json.mkObj (ids.map (fun i => (toString i, toJson (w2.count i))))),
